@@ -264,6 +264,11 @@ def check(ctx):
                     for sp2 in gates[cb.path]:
                         heads.setdefault(sp2, []).append(lib.call_target(m, b))
             for b, t, cb, sp in accs:
+                fld = accessor_fields.get(sp, {}).get(cb.raw.get("name"))
+                ctx.check(fld is not None, "C03.c", "%s:%s-is-a-plain-getter" % (mk, cb.raw.get("name")), m.loc(b),
+                          "tracker.%s() returns the field %s that start() fills from the claimed entry" % (cb.raw.get("name"), fld),
+                          "tracker.%s() is not a plain getter of a field filled by start() (what the reader sees is not the claimed metadata)" % cb.raw.get("name"))
+            for b, t, cb, sp in accs:
                 ctx.check(lib.dominated_by_any(m, b, heads.get(sp, [])), "C03.c", "%s:%s-gated-by-is_reacting" % (mk, cb.raw.get("name")),
                           m.loc(b), "tracker.%s() only on the is_reacting()==true arm" % cb.raw.get("name"),
                           "%s reads tracker.%s() on a path where is_reacting() was not checked true" % (mk, cb.raw.get("name")))
